@@ -75,7 +75,7 @@ fn check(out: &mut Out, format: Format, rgba: &[u8], w: u32, h: u32, q: Compress
     let what = format!("{:?} {w}x{h} {kind} quality {:?} metric {:?} dithering {:?}", format, q, m, d);
     let Some(bytes) = enc(format, rgba, w, h, q, m, d) else { println!("IMPL-VIOLATION encode failed or panicked: {what}"); return; };
     let Some(back) = dec(format, &bytes, w, h) else { println!("IMPL-VIOLATION decode of the encoder's output failed: {what}"); return; };
-    out.count(&format!("fmt_{:?}", format)); out.count(&format!("kind_{kind}")); out.count(&format!("quality_{:?}", q));
+    out.count(&format!("fmt_{:?}", format)); out.count(&format!("kind_{kind}")); out.count(&format!("quality_{:?}", q)); out.count("oracle_calls");
     portability(format, &bytes, rgba, w, h, &what);
     let has_alpha = matches!(format, Format::BC1_UNORM | Format::BC2_UNORM | Format::BC3_UNORM | Format::BC7_UNORM | Format::BC2_UNORM_PREMULTIPLIED_ALPHA | Format::BC3_UNORM_PREMULTIPLIED_ALPHA);
     let b = bounds(format);
@@ -107,7 +107,7 @@ fn check2(out: &mut Out, format: Format, blk: &[u8], q: CompressionQuality, m: E
     let what = format!("{:?} 4x4 two colours {:?} / {:?} quality {:?} metric {:?} dithering {:?}", format, &a[..3], &b[..3], q, m, d);
     let Some(bytes) = enc(format, blk, 4, 4, q, m, d) else { println!("IMPL-VIOLATION encode failed or panicked: {what}"); return; };
     let Some(back) = dec(format, &bytes, 4, 4) else { println!("IMPL-VIOLATION decode of the encoder's output failed: {what}"); return; };
-    out.count("kind_two_colours_representable"); out.count(&format!("fmt_{:?}", format));
+    out.count("kind_two_colours_representable"); out.count(&format!("fmt_{:?}", format)); out.count("oracle_calls");
     portability(format, &bytes, blk, 4, 4, &what);
     if d != Dithering::None { return; }
     let bd = bounds(format);
